@@ -57,6 +57,7 @@ Inductive apc :=
   | GFail (cnt : positive)            (* allocation_failed: before fetch_dec/fetch_sub(used) *)
   | RInc (b : nat)                    (* test released < max_released passed; before fetch_inc(released) *)
   | RPush (b : nat)                   (* before parsec_lifo_push *)
+  | RUndo (b : nat)                   (* repaired code only: reservation failed; before fetch_dec(released) *)
   | RSub (b : nat) (cnt : positive).  (* before fetch_sub(used), then data_free *)
 
 Notation blk := (nat * positive)%type (only parsing).     (* block id, chunk->count *)
@@ -105,7 +106,16 @@ Definition alloc_path (P : aparams) (fails : list nat) (c : acfg) (t : nat) (th 
         else set_thr c1 t (goto th (GFail cnt)))
   else set_thr c1 t (finish th (t_held th ++ [(n, cnt)]) (RGot n cnt)).
 
-Definition astep (P : aparams) (fails : list nat) (c : acfg) (t : nat) : acfg :=
+(* the free path of release_chunk *)
+Definition free_path (P : aparams) (c : acfg) (t : nat) (th1 : thr) (b : nat) (cnt : positive) : acfg :=
+  if negb (p_mu P =? 0) && negb (p_mu P =? INT32_MAX)
+  then set_thr c t (goto th1 (RSub b cnt))
+  else set_thr (add_freed c b) t (finish th1 (t_held th1) ROk).
+
+(* fx = false: release_chunk as it is in the repository (plain read of `released`, then a separate increment).
+   fx = true : release_chunk with notes/findings/C27-cache-limit-race.patch applied (the increment IS the test:
+               fetch_inc(released) < max_released, undone by a fetch_dec when it fails). *)
+Definition astep (fx : bool) (P : aparams) (fails : list nat) (c : acfg) (t : nat) : acfg :=
   match nth_error (a_thr c) t with
   | None => c
   | Some th =>
@@ -124,13 +134,17 @@ Definition astep (P : aparams) (fails : list nat) (c : acfg) (t : nat) : acfg :=
           | None => set_thr c t (finish (with_ops th r (t_held th)) (t_held th) RSkip)
           | Some (b, cnt) =>
               let th1 := with_ops th r (remove_nth k (t_held th)) in
-              (* if( (chunk->count == 1) && (arena->released < arena->max_released) ) : plain read *)
-              if (cnt =? 1)%positive && (a_rel c <? p_mr P)
-              then (if p_mr P =? INT32_MAX then set_thr c t (goto th1 (RPush b))
-                    else set_thr c t (goto th1 (RInc b)))
-              else if negb (p_mu P =? 0) && negb (p_mu P =? INT32_MAX)
-                   then set_thr c t (goto th1 (RSub b cnt))
-                   else set_thr (add_freed c b) t (finish th1 (t_held th1) ROk)
+              if fx
+              then (* if( (chunk->count == 1) && (arena->max_released > 0) ) *)
+                   (if (cnt =? 1)%positive && (0 <? p_mr P)
+                    then (if p_mr P =? INT32_MAX then set_thr c t (goto th1 (RPush b))
+                          else set_thr c t (goto th1 (RInc b)))
+                    else free_path P c t th1 b cnt)
+              else (* if( (chunk->count == 1) && (arena->released < arena->max_released) ) : plain read *)
+                   (if (cnt =? 1)%positive && (a_rel c <? p_mr P)
+                    then (if p_mr P =? INT32_MAX then set_thr c t (goto th1 (RPush b))
+                          else set_thr c t (goto th1 (RInc b)))
+                    else free_path P c t th1 b cnt)
           end
       | OGive k u :: r =>
           match nth_error (t_held th) k, nth_error (a_thr c) u with
@@ -162,15 +176,21 @@ Definition astep (P : aparams) (fails : list nat) (c : acfg) (t : nat) : acfg :=
         else alloc_path P fails (set_used c u) t th cnt
     | GFail cnt =>
         set_thr (set_used c (a_used c - Z.pos cnt)) t (finish th (t_held th) RNull)
-    | RInc b => set_thr (set_rel c (a_rel c + 1)) t (goto th (RPush b))
+    | RInc b =>
+        if fx && negb (a_rel c <? p_mr P)      (* repaired code: fetch_inc(released) < max_released failed *)
+        then set_thr (set_rel c (a_rel c + 1)) t (goto th (RUndo b))
+        else set_thr (set_rel c (a_rel c + 1)) t (goto th (RPush b))
+    | RUndo b => free_path P (set_rel c (a_rel c - 1)) t th b 1
     | RPush b => set_thr (set_lifo c (b :: a_lifo c)) t (finish th (t_held th) ROk)
     | RSub b cnt =>
         set_thr (add_freed (set_used c (a_used c - Z.pos cnt)) b) t (finish th (t_held th) ROk)
     end
   end.
 
-Definition arun (P : aparams) (fails : list nat) (c : acfg) (sched : list nat) : acfg :=
-  fold_left (astep P fails) sched c.
+Definition arun_gen (fx : bool) (P : aparams) (fails : list nat) (c : acfg) (sched : list nat) : acfg :=
+  fold_left (astep fx P fails) sched c.
+(* the code as it is *)
+Definition arun := arun_gen false.
 Definition mk_thr (ops : list op) : thr := {| t_ops := ops; t_pc := AIdle; t_held := []; t_log := [] |}.
 Definition ainit (progs : list (list op)) : acfg :=
   {| a_used := 0; a_rel := 0; a_lifo := []; a_allocs := []; a_freed := []; a_thr := map mk_thr progs |}.
@@ -178,7 +198,7 @@ Definition a_is_done (th : thr) : bool := match t_pc th with ADone => true | _ =
 
 (* blocks a thread has in hand: the one its program counter carries, and the ones it was handed *)
 Definition pc_blocks (p : apc) : list nat :=
-  match p with GDecRel b | RInc b | RPush b | RSub b _ => [b] | _ => [] end.
+  match p with GDecRel b | RInc b | RPush b | RUndo b | RSub b _ => [b] | _ => [] end.
 Definition thr_blocks (th : thr) : list nat := pc_blocks (t_pc th) ++ map fst (t_held th).
 Definition flatT {A B} (f : A -> list B) (l : list A) : list B := concat (map f l).
 (* every block that is allocated and not freed: in hand, or cached *)
@@ -188,7 +208,7 @@ Definition held_ids (c : acfg) : list nat := flatT (fun th => map fst (t_held th
 Fixpoint sumZ (l : list Z) : Z := match l with [] => 0 | x :: r => x + sumZ r end.
 Definition sumT {A} (g : A -> Z) (l : list A) : Z := sumZ (map g l).
 Definition pc_elems (p : apc) : Z :=
-  match p with GDecRel _ | RInc _ | RPush _ => 1 | RSub _ cnt => Z.pos cnt | _ => 0 end.
+  match p with GDecRel _ | RInc _ | RPush _ | RUndo _ => 1 | RSub _ cnt => Z.pos cnt | _ => 0 end.
 Definition thr_elems (th : thr) : Z := pc_elems (t_pc th) + sumZ (map (fun e => Z.pos (snd e)) (t_held th)).
 Definition pc_pending (p : apc) : Z := match p with GFail cnt => Z.pos cnt | _ => 0 end.
 Definition thr_pending (th : thr) : Z := pc_pending (t_pc th).
@@ -196,7 +216,8 @@ Definition thr_pending (th : thr) : Z := pc_pending (t_pc th).
 Definition a_live (c : acfg) : Z := sumT thr_elems (a_thr c) + Z.of_nat (length (a_lifo c)).
 Definition a_pending (c : acfg) : Z := sumT thr_pending (a_thr c).
 Definition is_rinc (th : thr) : bool := match t_pc th with RInc _ => true | _ => false end.
-Definition is_relwin (th : thr) : bool := match t_pc th with RPush _ | GDecRel _ => true | _ => false end.
+Definition is_relwin (th : thr) : bool := match t_pc th with RPush _ | GDecRel _ | RUndo _ => true | _ => false end.
+Definition is_rundo (th : thr) : bool := match t_pc th with RUndo _ => true | _ => false end.
 Definition is_gfail (th : thr) : bool := match t_pc th with GFail _ => true | _ => false end.
 
 (* ------------------------------------------------------------------------ *)
